@@ -34,11 +34,11 @@ CHECKS["C01"] = dict(
    text="Proof: for every even number of detectors the view/tangential <-> detector-pair maps are mutual inverses up to the reported exchange; for every well-formed segment table "
         "(decidable predicate WFb, evaluated per configuration and compared with the implementation's behaviour) ring pairs are partitioned over (segment, axial position); for every "
         "view-mashing factor dividing N/2 and odd TOF mashing the pairs a bin reports are exactly the pairs assigned to it (sound, complete up to orientation, duplicate-free, reported count), "
-        "exchanging detectors negates the TOF index, and uncompressed bin->pair->bin is the identity. Tie: construct_proj_data_info geometries (generated + predefined scanners) are "
-        "enumerated on the real ProjDataInfoCylindricalNoArcCorr and every table entry / bin is compared with the model; a partition oracle runs on the implementation. "
+        "exchanging detectors negates the TOF index, and uncompressed bin->pair->bin is the identity. The GE-style tables of ProjDataInfoGE are well-formed for every max_delta >= 1 and every number of rings (C01_ge_WF), reduce_segment_range preserves well-formedness, the tangential and view setters do not affect the look-ups, and the spatial (non-TOF) detector-pair lists are exact. Tie: geometries built by ProjDataInfoCTI and ProjDataInfoGE on generated and predefined scanners (randomised span, max_delta, view and TOF mashing), BlocksOnCylindrical and Generic (crystal-map file) scanners, are "
+        "enumerated on the real NoArcCorr classes under ASan/UBSan and every table entry / bin is compared with the model; on generated cylindrical scanners histories of every sampling setter and clone after the lazy tables exist are walked and everything is re-compared after each step; partition, multiplicity and bin-list oracles run on the implementation. A heap overflow for even TOF mashing factors found this way was repaired in /repo. "
         "The segment table built by ProjDataInfoCTI is well-formed for EVERY span, max_delta and number of rings the constructor accepts, except exactly the decidable class ctiDefect (outermost segment clipped to a single ring "
         "difference of the wrong parity), where it is proved NOT well-formed: that class violates the ring-pair clause on the real code and is a listed known finding; outside it all bin/ring-pair theorems apply to the tables the constructor builds (C01_cti_WF, C01_cti_Cfg, closed form of the table).",
-   note=TB + "float computation of m_offset/ax_pos_num_offset replaced by exact integers; 32-bit overflow not modelled; BlocksOnCylindrical (same formulas, copied code) is exercised for two predefined scanners at span 1 without TOF/view mashing (unsupported there); Generic geometry only through the same class hierarchy.",
+   note=TB + "float computation of m_offset/ax_pos_num_offset replaced by exact integers; 32-bit overflow not modelled; even TOF mashing is outside the theorems (negative witness for the old code; oracle-only on the repaired tree); histories are not run on the Blocks/Generic classes; set_ring_spacing, set_num_axial_poss_per_segment and set_tof_mash_factor after construction are not covered; a second listed known finding (setters leaving a single-ring-difference segment of odd parity) has the same root cause as the first.",
    design="DESIGN.md §4 C01")
 
 CHECKS["C18"] = dict(
@@ -77,7 +77,7 @@ CHECKS["C05"] = dict(
    text="Proof: in the model transcribed from PoissonLogLikelihoodWithLinearModelForMeanAndProjData (thresholds, end-plane clearing, normalisation, additive term, TOF loop) gradient = gradient-plus-sensitivity "
         "- sensitivity exactly; Hessian products, sensitivities and penalised quantities summed over subsets equal the full-data quantity; on the regular region the value is the textbook Poisson "
         "log-likelihood, the gradient is its derivative and the textbook Hessian product the derivative of the gradient (HasDerivAt over the reals); the set-up flag machine serves every request of "
-        "every history with the projectors it needs, whatever the indeterminate initial flags. The Hessian clause is partial for zero_seg0_end_planes (negative witness, listed known finding). "
+        "every history with the projectors it needs, whatever the indeterminate initial flags. "
         "Tie: the real objective function on generated small geometries with the explicit matrix read from the real projector; every quantity is recomputed by the model exactly in Rat (value in Float) and "
         "compared under a derived rounding bound; all orders of first use of the request kinds; textbook oracle on the implementation.",
    note=TB + "log and float accumulation modelled, not verified; distributed/MPI paths not built; the matrix rows are data read from the implementation.",
@@ -88,8 +88,8 @@ CHECKS["C08"] = dict(
         "clamp(lambda + g N / D zeta, 0, ub) with the denominator used/stored in every branch; every iterate of every run lies in [0, ub] (ub >= 0; negative witness otherwise); D is strictly positive in "
         "every sub-iteration; zeta = alpha/(1+gamma n) for ALL sub-iterations of full iteration n; resuming after any k reproduces the uninterrupted run exactly (state equality for all later "
         "sub-iterations and final results) for no prior / image-independent curvature, with enforce_initial_positivity off or a positive saved image (witnesses show both side conditions necessary and the "
-        "documented set_up trap). Tie: the real OSSPSReconstruction (set_up/update_estimate/reconstruct, restarts from saved iterates compared bitwise) on generated problems; gradients and curvatures the real "
-        "objects return are data, the model predicts every iterate in Rat within a derived bound. Two defects found this way were repaired in /repo (relaxation off by one sub-iteration; non-identifiable voxels re-zeroed only on resume).",
+        "documented set_up trap). Iterates stay within bounds after any bound-preserving inter-iteration/post filter (the separable filter with non-negative taps of sum <= 1 is one; negative witness and listed known finding for a sharpening filter applied after the clamp); a denominator read from file is refused unless readable and matching the image, and resuming with the saved denominator file reproduces the run. Tie: the real OSSPSReconstruction (set_up/update_estimate/end_of_iteration_processing/reconstruct, restarts from saved iterates compared bitwise) on generated problems: non-TOF and TOF, bin normalisation from projection data, zero_seg0_end_planes, subset sensitivities on/off, every number of subsets, quadratic prior variants, denominator computed / fixed / read from file, separable smoothing and sharpening filters, randomised subset order; the model gets the explicit system matrix and "
+        "predicts every iterate in Rat within a derived bound; gradient, D0 = -H(1), update, relaxation, bounds, resume and refusal oracles on the implementation. Three defects found this way were repaired in /repo (relaxation off by one sub-iteration; non-identifiable voxels re-zeroed only on resume; D0 included the zeroed end planes).",
    note=TB + "float rounding modelled by a derived bound; objective function answers (gradient, curvature, Hessian on ones) are inputs to the model (their correctness is C05/C09); filters not exercised.",
    design="DESIGN.md §4 C08")
 CHECKS["C10"] = dict(
@@ -107,7 +107,7 @@ CHECKS["C13"] = dict(
         "reported; apply divides by it above the 1e-20 floor; apply-then-undo is the identity there (exact statement of what happens below the floor, with negative witness); a chain's efficiency is the product "
         "of its members'; processing by related viewgrams under any grouping equals processing the whole data set; TOF data with non-TOF factors use the timing-position-0 factor; attenuation factors are the "
         "exponential of the line integral (for any E with E(x+y)=E(x)E(y)). 'Trivial changes nothing' is partial: listed known finding for bins outside the fan with an even number of tangential positions. "
-        "Tie: real BinNormalisationFromProjData, FromAttenuationImage, PETFromComponents, WithCalibration, Chained objects on generated geometries; every bin compared with the exact-Rat model; oracle on the implementation.",
+        "Chains also through their halves (apply/undo_only_first/second, null members), set-up refusals and the check of the set-up state on use are modelled decisions. Tie: real BinNormalisationFromProjData, FromAttenuationImage (matrix projector and the default on-the-fly projector), PETFromComponents (expectations also built by hand from the raw component arrays by symmetry classes, scanners with several blocks per bucket), WithCalibration and Chained objects on generated block scanners; every bin compared with the exact-Rat model through all symmetry groupings and whole-data calls; oracle on the implementation.",
    note=TB + "exp is an abstract homomorphism in the theorems and Float in the driver; ECAT/GE/HDF5 normalisation readers not built.",
    design="DESIGN.md §4 C13")
 CHECKS["C14"] = dict(
